@@ -87,6 +87,38 @@ def patch_time(loop, modules=()):
         _time.time, _time.monotonic, _time.monotonic_ns, _time.time_ns = saved
 
 
+class Stepper:
+    """Awaitable that drives `coro` and calls `on_suspend(n)` every time it suspends (n = 1, 2, ...: the n-th time the task
+    hands control back to the event loop, whatever it is waiting for: a future, a bare `sleep(0)` yield, ...).  Whatever the
+    coroutine yields is passed through untouched, so the task behaves exactly as if it ran `coro` directly.  Used to inject a
+    cancellation at EVERY await point of the code under test: `on_suspend` may call `loop.call_soon(task.cancel)`, which is
+    delivered at that very suspension point when the task runs next."""
+
+    def __init__(self, coro, on_suspend):
+        self.coro = coro
+        self.on_suspend = on_suspend
+        self.n = 0
+
+    def __await__(self):
+        coro = self.coro
+        val, exc = None, None
+        while True:
+            try:
+                y = coro.throw(exc) if exc is not None else coro.send(val)
+            except StopIteration as e:
+                return e.value
+            self.n += 1
+            self.on_suspend(self.n)
+            try:
+                val, exc = (yield y), None
+            except BaseException as e:  # noqa: BLE001  (CancelledError must reach the coroutine)
+                val, exc = None, e
+
+
+async def stepped(coro, on_suspend):
+    return await Stepper(coro, on_suspend)
+
+
 class Sched:
     def __init__(self):
         self.loop = VLoop()
